@@ -15,7 +15,7 @@ def wides(n, tier):
 def grid(idx, tier, reps_q, reps_t):
     name, nw, ulen, ulen2 = shapes[idx]
     g = {"vfShape": {"all": [idx]}, "vfWide": {"quick": wides(nw, 'quick'), "thorough": wides(nw, 'thorough')}}
-    g["vfLen"] = {"quick": [0, 1] if ulen else [0], "thorough": [0, 1, 2, 3] if ulen else [0]}
+    g["vfLen"] = {"quick": [0, 1] if ulen else [0], "thorough": [0, 1, 2] if ulen else [0]}
     if ulen2:
         g["vfLen2"] = {"quick": reps_q, "thorough": reps_t}
     else:
@@ -57,7 +57,7 @@ for idx, nm in ((7, "maps"), (9, "mapptr")):
                          "grid": {"vfShape": {"all": [idx]}, "vfMode": {"all": [0, 1, 2] if nm == "mapptr" else [0]}, "vfWide": {"all": [0]}, "vfLen": {"quick": [0, 1], "thorough": [0, 1, 2]}, "vfLen2": {"quick": [1], "thorough": [1, 2]}}, "covers": ["done"], "timeout_ms": 30000, "concret": ["github.com/segmentio/encoding/proto.sizeOfVarint"], "split": {"all": 6}})
 c16 = {"property": "C16", "title": "proto.MarshalTo honours the caller's buffer for every size", "level": "model_checking", "assumptions": common_assume + ["every destination length 0..Size(v)+1 is tried on every path; the destination slice has 3 bytes of spare capacity filled with guard bytes"],
        "outside_claim": ["types outside the catalogue"],
-       "units": units("H16", "vfH_c16_shape", "MarshalTo for every destination length 0..Size+1 with guard bytes", ["done", "fits", "short"], reps_q=[0, 1, 2], reps_t=[0, 1, 2, 3])}
+       "units": units("H16", "vfH_c16_shape", "MarshalTo for every destination length 0..Size+1 with guard bytes", ["done", "fits", "short"], reps_q=[0, 1, 2], reps_t=[0, 1, 2])}
 c07 = {"property": "C07", "title": "proto decoding is total and ignores unknown fields", "level": "model_checking", "assumptions": common_assume + ["allocation limit for a decode of L input bytes: 64*L+1024 bytes per allocation (engine ALLOC check asks the solver for the largest feasible size)"],
        "outside_claim": ["free byte strings longer than the bounds", "types outside the catalogue"],
        "units": []}
